@@ -16,10 +16,11 @@ import (
 )
 
 type input struct {
-	NS     string `json:"ns"`
-	Line   []int  `json:"line"`
-	Stream string `json:"stream"`
-	Class  string `json:"class"`
+	NS     string      `json:"ns"`
+	Line   []int       `json:"line"`
+	Stream string      `json:"stream"`
+	Class  string      `json:"class"`
+	Held   *heldScript `json:"held,omitempty"` // stream "held": the script around the line, see held.go
 }
 
 var namespaces = []string{"", "", "", "ns", "a.b", "x_y"}
@@ -31,9 +32,16 @@ func main() {
 	ll := verifhooks.NewLineLexer(4)
 	runOne := func(in input) {
 		line := lexgen.FromInts(in.Line)
-		o := lexgen.Lex(ll, line, in.NS)
+		var o lexgen.Observation
+		var heldMonitors []string
+		if in.Held != nil {
+			o, heldMonitors = runHeld(in.Held, line, in.NS)
+		} else {
+			o = lexgen.Lex(ll, line, in.NS)
+		}
 		c := hlib.Case{Input: in, Obs: map[string]interface{}{"text": fmt.Sprintf("%q", line), "result": o}, Class: in.Class + "/" + o.Kind}
 		c.Coq = lexgen.LexCase(in.NS, line, o)
+		c.Monitors = append(c.Monitors, heldMonitors...)
 		if o.Kind == "panic" {
 			c.Monitors = append(c.Monitors, "lexer panicked: "+o.Err)
 		}
@@ -46,7 +54,16 @@ func main() {
 	switch a.Mode {
 	case "gen":
 		r := hlib.NewRand(a.Seed)
+		var heldQueue []input
 		for i := 0; i < a.N; i++ {
+			if i%8 == 5 || i%8 == 1 { // results held across a batch, see held.go
+				if len(heldQueue) == 0 {
+					heldQueue = heldScriptGen(r)
+				}
+				runOne(heldQueue[0])
+				heldQueue = heldQueue[1:]
+				continue
+			}
 			stream := "grammar"
 			if i%3 == 2 {
 				stream = "malformed"
